@@ -9,6 +9,10 @@ Translated (statement by statement, fail closed on any unknown shape):
                                              getResultForOutput / isResultValid; ProducedNodeTask /
                                              ProducedDirectoryNodeTask::isResultValid; the completion lambda of
                                              CommandTask (which result kinds are counted as command failures)
+  lib/Basic/Subprocess.cpp                   cleanUpExecutedProcess (POSIX branch): wait status -> ProcessStatus
+  lib/BuildSystem/ExternalCommand.cpp        start (which per-execution members it resets), providePriorValue,
+  include/llbuild/BuildSystem/ExternalCommand.h   the canUpdateIfNewer bookkeeping of provideValue, the "update without running" block
+                                             of execute, canUpdateIfNewerWithResult; member initialisers
 """
 import re
 from xcommon import *
@@ -16,6 +20,13 @@ from xcommon import *
 BV = "include/llbuild/BuildSystem/BuildValue.h"
 EC = "lib/BuildSystem/ExternalCommand.cpp"
 BS = "lib/BuildSystem/BuildSystem.cpp"
+SP = "lib/Basic/Subprocess.cpp"
+ECH = "include/llbuild/BuildSystem/ExternalCommand.h"
+# Linux signal numbers (asm-generic; x86/arm): names the classification may compare WTERMSIG against
+SIGNUM = {"SIGHUP": 1, "SIGINT": 2, "SIGQUIT": 3, "SIGILL": 4, "SIGTRAP": 5, "SIGABRT": 6, "SIGIOT": 6, "SIGBUS": 7, "SIGFPE": 8,
+          "SIGKILL": 9, "SIGUSR1": 10, "SIGSEGV": 11, "SIGUSR2": 12, "SIGPIPE": 13, "SIGALRM": 14, "SIGTERM": 15, "SIGSTKFLT": 16,
+          "SIGCHLD": 17, "SIGCONT": 18, "SIGSTOP": 19, "SIGTSTP": 20, "SIGTTIN": 21, "SIGTTOU": 22, "SIGURG": 23, "SIGXCPU": 24,
+          "SIGXFSZ": 25, "SIGVTALRM": 26, "SIGPROF": 27, "SIGWINCH": 28, "SIGIO": 29, "SIGPOLL": 29, "SIGPWR": 30, "SIGSYS": 31}
 
 
 def lc(name):
@@ -257,6 +268,121 @@ def method_body(body, name, required=True):
         return None
     b, _ = find_block(body, m.end() - 1)
     return b
+
+
+def assign_chain(stmts, var, cur, atoms, preds):
+    """Lean Bool expression for the value of member `var` after executing `stmts` (only `var = true|false` assignments
+    under if/else are allowed), `cur` being its value before."""
+    for st in stmts:
+        k = st[0]
+        if k == "empty":
+            continue
+        if k == "block":
+            cur = assign_chain(st[1], var, cur, atoms, preds)
+        elif k == "simple":
+            m = re.fullmatch(r"%s = (true|false)" % var, st[1])
+            if not m:
+                raise ExtractError("unexpected statement where only `%s = ...` is understood: %r" % (var, st[1]))
+            cur = m.group(1)
+        elif k == "if":
+            c = Cond(st[1], atoms, preds).parse()
+            t = assign_chain([st[2]], var, cur, atoms, preds)
+            e = assign_chain([st[3]], var, cur, atoms, preds) if st[3] is not None else cur
+            cur = "(if %s then %s else %s)" % (c, t, e)
+        else:
+            raise ExtractError("unexpected statement where only `%s = ...` is understood: %r" % (var, st))
+    return cur
+
+
+def posix_text(body):
+    """the lines of a function body that are compiled when _WIN32 is not defined (any other directive: fail closed)"""
+    out, stack = [], []
+    for line in body.split("\n"):
+        t = line.strip()
+        if t.startswith("#"):
+            d = " ".join(t[1:].split())
+            if d == "if defined(_WIN32)":
+                stack.append("win")
+            elif d.startswith("else"):
+                if not stack:
+                    raise ExtractError("#else without #if")
+                stack[-1] = "posix" if stack[-1] == "win" else "win"
+            elif d.startswith("endif"):
+                if not stack:
+                    raise ExtractError("#endif without #if")
+                stack.pop()
+            else:
+                raise ExtractError("preprocessor directive not understood in cleanUpExecutedProcess: " + t)
+            continue
+        if "win" not in stack:
+            out.append(line)
+    if stack:
+        raise ExtractError("unbalanced preprocessor conditionals")
+    return "\n".join(out)
+
+
+def wait_cond(text, env):
+    """condition over the wait status `exitCode` (macros of <sys/wait.h>, comparisons, earlier bool locals) -> Lean over `w`"""
+    atoms = []
+
+    def ph(lean):
+        atoms.append((r"@A%d@" % len(atoms), lean))
+        return "@A%d@" % (len(atoms) - 1)
+
+    def cmpm(m):
+        rhs = m.group(3)
+        if rhs.isdigit():
+            v = rhs
+        elif rhs in SIGNUM:
+            v = str(SIGNUM[rhs])
+        else:
+            raise ExtractError("unknown constant in wait-status comparison: " + rhs)
+        return ph("(%s w %s %s)" % (m.group(1), m.group(2), v))
+    text = re.sub(r"\b(WTERMSIG|WEXITSTATUS|WSTOPSIG)\(exitCode\)\s*(==|!=)\s*(\w+)", cmpm, text)
+    text = re.sub(r"\bexitCode\s*(==|!=)\s*(\d+)", lambda m: ph("(w %s %s)" % (m.group(1), m.group(2))), text)
+    text = re.sub(r"\b(WIFSIGNALED|WIFEXITED|WIFSTOPPED|WCOREDUMP)\(exitCode\)", lambda m: ph("%s w" % m.group(1)), text)
+    for name, lean in env.items():
+        text = re.sub(r"\b%s\b" % re.escape(name), lambda m: ph(lean), text)
+    if re.search(r"[A-Za-z_]", re.sub(r"@A\d+@", "", text)):
+        raise ExtractError("cannot translate wait-status condition: %r" % text)
+    return Cond(text, atoms, []).parse()
+
+
+def split_top(text, ch):
+    """index of the first `ch` at parenthesis depth 0 that closes the ternary opened at the start (for ':'), or of the first '?'"""
+    d = q = 0
+    for i, c in enumerate(text):
+        if c == "(":
+            d += 1
+        elif c == ")":
+            d -= 1
+        elif d == 0 and c == "?":
+            if ch == "?":
+                return i
+            q += 1
+        elif d == 0 and c == ":" and ch == ":":
+            if q == 0:
+                return i
+            q -= 1
+    return -1
+
+
+def wait_ternary(text, env, statuses):
+    text = text.strip()
+    while text.startswith("(") and match_paren(text, 0) == len(text) - 1:
+        text = text[1:-1].strip()
+    q = split_top(text, "?")
+    if q < 0:
+        m = re.fullmatch(r"ProcessStatus\.(\w+)", text)
+        if not m or m.group(1) not in statuses:
+            raise ExtractError("cannot translate process status expression: %r" % text)
+        return "." + lc(m.group(1))
+    c = split_top(text[q + 1:], ":")
+    if c < 0:
+        raise ExtractError("ternary without ':' in %r" % text)
+    return "(if %s then %s else %s)" % (wait_cond(text[:q], env), wait_ternary(text[q + 1:q + 1 + c], env, statuses),
+                                        wait_ternary(text[q + 2 + c:], env, statuses))
+
 
 
 def run():
@@ -588,6 +714,140 @@ def run():
         raise ExtractError("CommandTask: early completions changed: %r" % early_c)
     L.append("/-- completions of `CommandTask` that never reach `Command::execute` (build cancelled / delegate declined) -/")
     L.append("def commandTaskEarlyCompletions : List Kind := [.cancelledCommand, .skippedCommand]\n")
+
+
+    # ---- wait status -> ProcessStatus (Subprocess.cpp, POSIX branch of cleanUpExecutedProcess) -------------------------
+    sp = strip_comments(read(SP))
+    b_clean = function_body(sp, r"static\s+void\s+cleanUpExecutedProcess\s*\([^)]*\)")
+    used.append((SP, b_clean))
+    px = posix_text(b_clean)
+    wst = parse_stmts(px)
+    if not any(x[0] == "simple" and re.fullmatch(r"int exitCode, result = wait4\(pid, &exitCode, 0, &usage\)", x[1]) for x in wst):
+        raise ExtractError("cleanUpExecutedProcess: `exitCode` is no longer the status filled in by wait4(pid, &exitCode, 0, ...)")
+    if re.search(r"\bexitCode\s*(?:[-+|&^]|<<|>>)?=[^=]", px.replace("int exitCode, result = wait4", "")) or \
+            len(re.findall(r"&\s*exitCode", px)) != len(re.findall(r"wait4\(pid, &exitCode, 0, &usage\)", px)):
+        raise ExtractError("cleanUpExecutedProcess: the wait status is modified before it is classified")
+    try:
+        at = next(i for i, x in enumerate(wst) if x[0] == "if" and " ".join(x[1].split()) == "result == -1")
+    except StopIteration:
+        raise ExtractError("cleanUpExecutedProcess: the wait-failure guard is gone")
+    if "ProcessResult::makeFailed(exitCode)" not in repr(wst[at][2]) or "('return', '')" not in repr(wst[at][2]):
+        raise ExtractError("cleanUpExecutedProcess: a failed wait no longer completes with makeFailed and returns")
+    wenv, wstatus = {}, None
+    tail_ok = [r"uint64_t [us]time = .*", r"ProcessResult processResult\(processStatus, exitCode, pid, utime, stime, usage\.ru_maxrss\)",
+               r"delegate\.processFinished\(ctx, handle, processResult\)", r"completionFn\(processResult\)"]
+    for x in wst[at + 1:]:
+        if x[0] != "simple":
+            raise ExtractError("cleanUpExecutedProcess: unexpected control flow after the wait: %r" % (x,))
+        mm = re.fullmatch(r"bool (\w+) = (.*)", x[1])
+        if mm:
+            wenv[mm.group(1)] = wait_cond(mm.group(2), dict(wenv))
+            continue
+        mm = re.fullmatch(r"ProcessStatus processStatus = (.*)", x[1])
+        if mm:
+            if wstatus is not None:
+                raise ExtractError("cleanUpExecutedProcess: processStatus defined twice")
+            txt = mm.group(1).replace("ProcessStatus::", "ProcessStatus.")
+            if "::" in txt:
+                raise ExtractError("cleanUpExecutedProcess: cannot translate " + mm.group(1))
+            wstatus = wait_ternary(txt, wenv, names)
+            continue
+        if not any(re.fullmatch(rx, x[1]) for rx in tail_ok):
+            raise ExtractError("cleanUpExecutedProcess: cannot translate statement %r" % x[1])
+    if wstatus is None or [x[1] for x in wst[-3:]] != ["ProcessResult processResult(processStatus, exitCode, pid, utime, stime, usage.ru_maxrss)",
+                                                     "delegate.processFinished(ctx, handle, processResult)", "completionFn(processResult)"]:
+        raise ExtractError("cleanUpExecutedProcess: the classified status is no longer what the completion function receives")
+    L.append("/-! Wait status of a finished child (`wait4` with options 0: exited or signaled), Linux/glibc encoding of\n"
+             "   <bits/waitstatus.h> (platform facts, not repository code). -/")
+    L.append("def WTERMSIG (w : Nat) : Nat := w &&& 0x7f")
+    L.append("def WEXITSTATUS (w : Nat) : Nat := (w &&& 0xff00) >>> 8")
+    L.append("def WSTOPSIG (w : Nat) : Nat := WEXITSTATUS w")
+    L.append("def WIFEXITED (w : Nat) : Bool := WTERMSIG w == 0")
+    L.append("/-- `((signed char)((w & 0x7f) + 1) >> 1) > 0` -/")
+    L.append("def WIFSIGNALED (w : Nat) : Bool := 2 ≤ (w &&& 0x7f) + 1 && (w &&& 0x7f) + 1 < 128")
+    L.append("def WIFSTOPPED (w : Nat) : Bool := (w &&& 0xff) == 0x7f")
+    L.append("def WCOREDUMP (w : Nat) : Bool := (w &&& 0x80) != 0")
+    L.append("/-- `cleanUpExecutedProcess`: the `ProcessStatus` handed to the completion function for wait status `w` -/")
+    L.append("def waitProcStatus (w : Nat) : ProcStatus :=\n  %s\n" % wstatus)
+
+    # ---- the "update without running" bookkeeping of ExternalCommand -------------------------------------------------
+    ech = strip_comments(read(ECH))
+    inits = {}
+    for var in ("canUpdateIfNewer", "hasPriorResult"):
+        mm = re.findall(r"\bbool\s+%s\s*=\s*(true|false)\s*;" % var, ech)
+        if len(mm) != 1:
+            raise ExtractError("ExternalCommand.h: member initialiser of %s not found" % var)
+        inits[var] = mm[0]
+    used.append((ECH, "canUpdateIfNewer = %s; hasPriorResult = %s" % (inits["canUpdateIfNewer"], inits["hasPriorResult"])))
+    b_start = function_body(ec, r"void\s+ExternalCommand::start\s*\([^)]*\)")
+    b_prior = function_body(ec, r"void\s+ExternalCommand::providePriorValue\s*\([^)]*\)")
+    b_cuw = function_body(ec, r"bool\s+ExternalCommand::canUpdateIfNewerWithResult\s*\([^)]*\)")
+    used += [(EC, b_start), (EC, b_prior), (EC, b_cuw)]
+    start_vals = {"canUpdateIfNewer": "old", "hasPriorResult": "old"}
+    seen_start = set()
+    for x in parse_stmts(b_start):
+        if x[0] == "simple" and x[1] in ("skipValue = llvm::None", "missingInputKeys.clear()", "unsigned id = 0", "startExternalCommand(system, ti)"):
+            seen_start.add(x[1])
+        elif x[0] == "simple" and re.fullmatch(r"(canUpdateIfNewer|hasPriorResult) = (true|false)", x[1]):
+            v, val = x[1].split(" = ")
+            start_vals[v] = val
+        elif x[0] == "loop" and x[1] == "for" and re.fullmatch(r"\('block', \[\('simple', 'ti\.request\([^']*\)'\)\]\)", repr(x[3])):
+            pass
+        else:
+            raise ExtractError("ExternalCommand::start: cannot translate %r" % (x,))
+    if not {"skipValue = llvm::None", "missingInputKeys.clear()"} <= seen_start:
+        raise ExtractError("ExternalCommand::start no longer resets skipValue and missingInputKeys (the model's CmdState.init)")
+    prior_e = assign_chain(parse_stmts(b_prior), "hasPriorResult", "old", [], pnames)
+    input_e = assign_chain([els], "canUpdateIfNewer", "old", [], pnames)
+    if re.search(r"canUpdateIfNewer|hasPriorResult", repr(thn)):
+        raise ExtractError("provideValue: the skip branch touches the update bookkeeping")
+    # every write to the two members is one of those translated above
+    for var, n in (("canUpdateIfNewer", len(re.findall(r"canUpdateIfNewer = ", repr(parse_stmts(b_start)) + repr(els)))),
+                   ("hasPriorResult", len(re.findall(r"hasPriorResult = ", repr(parse_stmts(b_start)) + repr(parse_stmts(b_prior)))))):
+        if len(re.findall(r"\b%s\s*=[^=]" % var, ec)) != n:
+            raise ExtractError("ExternalCommand.cpp writes %s somewhere the extractor does not translate" % var)
+    for rel in ("lib/BuildSystem/ShellCommand.cpp", "lib/BuildSystem/BuildSystemFrontend.cpp"):
+        if re.search(r"\b(canUpdateIfNewer|hasPriorResult)\b", strip_comments(read(rel))):
+            raise ExtractError(rel + " now touches the update bookkeeping of ExternalCommand")
+    if not re.search(r"class ExternalCommand : public Command \{[^}]*?bool hasPriorResult", " ".join(ech.split())) or \
+            re.search(r"(public|protected)\s*:[^}]*\b(canUpdateIfNewer|hasPriorResult)\b\s*=", ech.split("class ExternalCommand")[1].split("bool canUpdateIfNewerWithResult")[0]):
+        raise ExtractError("ExternalCommand.h: canUpdateIfNewer / hasPriorResult are no longer private members")
+    st = parse_stmts(b_exec)
+    if not (st[1] == ("assert", "missingInputKeys.empty()") and st[2][0] == "if" and st[2][3] is None and st[2][2] == ("block", [
+            ("simple", "BuildValue result = computeCommandResult(system, ti)"),
+            ("if", "canUpdateIfNewerWithResult(result)", ("block", [("simple", "resultFn(std::move(result))"), ("return", "")]), None)])):
+        raise ExtractError("execute: the update-without-running block is no longer the statement after the skip block: %r" % (st[1:3],))
+    guard_e = Cond(st[2][1], [(r"canUpdateIfNewer\b", "canUpdate"), (r"hasPriorResult\b", "hasPrior")], pnames).parse()
+    if "commandStarted" in repr(st[:3]):
+        raise ExtractError("execute: commandStarted precedes the update block")
+    cst = parse_stmts(b_cuw)
+    flat = []
+    for x in cst:
+        if x[0] == "loop":
+            if not (x[1] == "for" and " ".join(x[2].split()) == "unsigned i = 0, e = result.getNumOutputs(); i != e; ++i" and x[3][0] == "block"
+                    and len(x[3][1]) == 2 and x[3][1][0] == ("simple", "const FileInfo& outputInfo = result.getNthOutputInfo(i)")
+                    and x[3][1][1][0] == "if" and x[3][1][1][3] is None):
+                raise ExtractError("canUpdateIfNewerWithResult: unexpected loop %r" % (x,))
+            flat.append(x[3][1][1])      # "for some output": the guarded return fires iff it fires for some i
+        else:
+            flat.append(x)
+    ch = Chain(pnames, [(r"allowModifiedOutputs\b", "allowModifiedOutputs"), (r"outputInfo\.isMissing\(\)", "anyOutputMissing")],
+               lambda e: {"false": "false", "true": "true"}.get(e) or (_ for _ in ()).throw(ExtractError("return " + e)), [])
+    cuw_e = ch.seq(flat, None)
+    L.append("/-! The \"update without running\" bookkeeping of `ExternalCommand` (private members `canUpdateIfNewer`, `hasPriorResult`). -/")
+    L.append("def canUpdateIfNewerInit : Bool := %s" % inits["canUpdateIfNewer"])
+    L.append("def hasPriorResultInit : Bool := %s" % inits["hasPriorResult"])
+    L.append("/-- `start`: resets `skipValue` and `missingInputKeys` (checked by the extractor); the two flags after it, given their values before -/")
+    L.append("def startCanUpdate (old : Bool) : Bool := %s" % start_vals["canUpdateIfNewer"])
+    L.append("def startHasPrior (old : Bool) : Bool := %s" % start_vals["hasPriorResult"])
+    L.append("/-- `providePriorValue(value)`: `hasPriorResult` afterwards -/")
+    L.append("def priorHasPrior (k : Kind) (old : Bool) : Bool := %s" % prior_e)
+    L.append("/-- `provideValue`, branch without a skip value: `canUpdateIfNewer` afterwards -/")
+    L.append("def inputCanUpdate (k : Kind) (old : Bool) : Bool := %s" % input_e)
+    L.append("/-- `execute`, after the skip block: the guard of the block that completes with `computeCommandResult` WITHOUT starting the command -/")
+    L.append("def updateGuard (canUpdate hasPrior : Bool) : Bool := %s" % guard_e)
+    L.append("/-- `canUpdateIfNewerWithResult(result)`: anyOutputMissing = some output info of the freshly computed result `isMissing()` -/")
+    L.append("def canUpdateWithResult (allowModifiedOutputs anyOutputMissing : Bool) : Bool :=\n  %s\n" % cuw_e)
 
     L.append("end LLBuild.Generated.FailTables")
     return write_generated("FailTables", "\n".join(L), used)
